@@ -79,7 +79,14 @@ TableIsMatch ==
           /\ N!FindCloseT(str, S, M, p) = N!FindClose(str, S, p)
           /\ N!SkipValueT(str, S, M, p) = N!SkipValue(str, S, p)
 
-\* non-vacuity witness counters are printed by the check from the state count of a
-\* second run with WellNested as a state constraint; here: at least the trivial witnesses
+\* non-vacuity: checks/c32.py runs this module once more with INVARIANT NoWitness and
+\* requires TLC to find it violated (a well-nested string with a nested bracket pair, a
+\* delimiter and a bracket inside a string exists within the bound).
+NoWitness ==
+  ~(/\ WellNested
+    /\ Len(S) >= 5
+    /\ \E i \in 1..Len(S) : IsDelim(str[S[i] + 1])
+    /\ \E i \in 1..(Len(S) - 1) : IsOpen(str[S[i] + 1]) /\ IsOpen(str[S[i + 1] + 1]))
+
 Inv == IbIsStructurals /\ IndexInverse /\ BpMatches /\ TableIsMatch
 =============================================================================
